@@ -99,6 +99,15 @@ func (e *c05env) features(c *c05case) ([]harfbuzz.Feature, []hbref.Feature) {
 		if e.sf.optFeat != 0 {
 			return mk(e.sf.optFeat.String(), 1, harfbuzz.FeatureGlobalStart, harfbuzz.FeatureGlobalEnd)
 		}
+	case 5, 6, 7:
+		// the same optional feature over the same range with the values 0, 1, 3, one call after the other on the same
+		// Buffer: the cached shape plan bakes in whether (and how wide) a ranged feature gets a mask
+		if e.sf.optFeat != 0 {
+			val := []uint32{0, 1, 3}[c.Feats-5]
+			a, b := mk(e.sf.optFeat.String(), val, 0, 2)
+			b[0].Start, b[0].End = 0, 2
+			return a, b
+		}
 	}
 	return nil, nil
 }
@@ -249,7 +258,10 @@ func (e *c05env) font(sf *shFont, maxLen int, thorough bool) {
 			c.Var = v
 			e.one(&c)
 		}
-		for fe := 1; fe <= 4; fe++ {
+		for fe := 1; fe <= 7; fe++ {
+			if fe >= 5 && (sf.optFeat == 0 || n < 2) {
+				continue
+			}
 			c := base
 			c.Feats = fe
 			e.one(&c)
